@@ -28,7 +28,7 @@ RULE = (
 )
 BOUNDS = {
     "quick": "m<=4 all 33 permutations, n in {1,m-1,m,m+1}, 3 letter kinds, 2 modes; singular cells m,n<=4; ties m<=3; generic m,n<=5",
-    "thorough": "m<=5 all 153 permutations, n in {1,m-1,m,m+1,m+2}, 4 letter kinds, 2 modes; singular cells m,n<=5; ties m<=3; generic m,n<=6 x 4 fill rows",
+    "thorough": "m<=6 all 873 permutations, n in {1,m-1,m,m+1,m+2}, 4 letter kinds, 2 modes; singular cells m,n<=5; ties m<=3; generic m,n<=6 x 4 fill rows",
 }
 WALL_BUDGET = {"quick": 240, "thorough": 1800}
 ASSUMPTIONS = [
@@ -127,7 +127,7 @@ def model_run(sigma, m, N):
 # ------------------------------------------------------------------ case space
 def cases(tier, seed):
     out = []
-    M = 4 if tier == "quick" else 5
+    M = 4 if tier == "quick" else 6
     kinds = ["real", "q8", "mixed"] + (["fill"] if tier == "thorough" else [])
     for m in range(1, M + 1):
         ns = sorted({x for x in (1, m - 1, m, m + 1) + ((m + 2,) if tier == "thorough" else ()) if x >= 1})
